@@ -1230,6 +1230,65 @@ fn wrap_case(ctx: &Ctx, which: usize, id: String) -> Case {
     c
 }
 
+/// receive buffers larger than 64 KiB and frames of 65 535, 65 536 and more bytes (oracles only): the frame
+/// length is not a 16-bit quantity
+fn jumbo_case(ctx: &Ctx, which: usize, id: String) -> Case {
+    let mut c = Case::new(id);
+    let offered = if which % 2 == 0 { 1u64 << 32 } else { 0 };
+    let buf_len = 70_000usize;
+    let (t, st) = setup_transport(offered);
+    let mut net = match guarded(|| VirtIONet::<LedgerHal, ModelTransport, 2>::new(t, buf_len)) {
+        Ok(Ok(n)) => n,
+        other => {
+            c.fail(format!("VirtIONet::new with {}-byte buffers failed: {:?}", buf_len, other.map(|r| r.err())));
+            return c;
+        }
+    };
+    let mut rng = ctx.case_rng("net-jumbo", which);
+    if let Err(e) = install_nic(&st, 2, rng.fork()) {
+        c.fail(e);
+        return c;
+    }
+    let _ = with_nic(|n| n.poll_rx());
+    for flen in [65_535usize, 65_536, 65_537, 69_000, 1000] {
+        let pend: Vec<u16> = with_nic(|n| n.rx.inflight.iter().map(|c| c.head).collect());
+        if pend.is_empty() {
+            c.fail("jumbo: no receive buffer posted");
+            break;
+        }
+        let tok = *rng.pick(&pend);
+        let frame = rng.bytes(flen);
+        if let Err(e) = with_nic(|n| n.inject(tok, &frame, None)) {
+            c.fail(e);
+            break;
+        }
+        match guarded(|| net.receive()) {
+            Ok(Ok(b)) => {
+                if b.packet_len() != flen || b.packet() != frame {
+                    c.fail(format!("jumbo: a frame of {} bytes arrived as {} bytes{}", flen, b.packet_len(), if b.packet_len() == flen { " with different contents" } else { "" }));
+                    break;
+                }
+                with_nic(|n| n.rx_posted.remove(&tok));
+                let r = net.recycle_rx_buffer(b);
+                let new = with_nic(|n| n.poll_rx());
+                if r.is_err() || new.len() != 1 {
+                    c.fail(format!("jumbo: recycle failed ({:?})", r));
+                    break;
+                }
+            }
+            other => {
+                c.fail(format!("jumbo: receive of a {}-byte frame: {:?}", flen, other.map(|r| r.map(|_| ()))));
+                break;
+            }
+        }
+    }
+    c.tag("net-jumbo");
+    c.nontrivial = true;
+    drop(net);
+    let _ = crate::hal::take_events();
+    c
+}
+
 fn oracle_selftest() -> Vec<String> {
     let mut bad = vec![];
     let mut c = Case::new("t");
@@ -1272,6 +1331,7 @@ pub fn run(ctx: &Ctx) -> (Vec<Case>, String, bool, BTreeMap<String, String>) {
     all.extend(crate::runner::par_cases(ctx, "C16", "dev-malformed", nm, |i, id| dispatch_dev(ctx, i, id, true)));
     all.extend(crate::runner::par_cases(ctx, "C16", "lengths", 16, |i, id| lengths_case(ctx, i, id)));
     all.extend(crate::runner::par_cases(ctx, "C16", "net-wrap", ctx.tier.pick(2, 8), |i, id| wrap_case(ctx, i, id)));
+    all.extend(crate::runner::par_cases(ctx, "C16", "net-jumbo", 2, |i, id| jumbo_case(ctx, i, id)));
     let mut st = Case::new(ctx.case_id("C16", "oracle-selftest", 0));
     if ctx.wants(&st.id) {
         for b in oracle_selftest() {
@@ -1280,6 +1340,6 @@ pub fn run(ctx: &Ctx) -> (Vec<Case>, String, bool, BTreeMap<String, String>) {
         all.push(st);
     }
     virtio_drivers::verif_hooks::set_spin_hook(None);
-    let rule = "real VirtIONetRaw and VirtIONet with QUEUE_SIZE in {1,2,4,16} on ModelTransport+LedgerHal against a spec-written reference NIC; offered features random over {MAC,STATUS,INDIRECT,EVENT_IDX,VERSION_1,ACCESS_PLATFORM} plus unsupported bits (MRG_RXBUF among them), VERSION_1 forced on in even and off in odd cases. Stream `raw`: receive_begin/complete, poll, transmit_begin/complete with fill_buffer_header, blocking send and receive_wait, device bursts of 1..3 frames into pending buffers of its choice, completions consumed in and out of ring order. Stream `dev`: VirtIONet::new with buffer lengths {1528..4096}, bursts of 1..4 frames in device-chosen order, can_recv/receive/recycle/can_send/send, and a final drain (consume all completions, recycle everything) after which QUEUE_SIZE buffers must be posted. Streams `*-malformed`: additionally too-small buffers, used lengths below the header size, send with a stale completion. Stream `lengths`: every frame length 0..=buffer-header for the 10- and the 12-byte header through VirtIONet receive and (<=1514) send: complete enumeration. Stream `net-wrap`: 66000 frames received and recycled one by one (the ring indices wrap). Non-trivial = at least one frame received with verified contents.".to_string();
+    let rule = "real VirtIONetRaw and VirtIONet with QUEUE_SIZE in {1,2,4,16} on ModelTransport+LedgerHal against a spec-written reference NIC; offered features random over {MAC,STATUS,INDIRECT,EVENT_IDX,VERSION_1,ACCESS_PLATFORM} plus unsupported bits (MRG_RXBUF among them), VERSION_1 forced on in even and off in odd cases. Stream `raw`: receive_begin/complete, poll, transmit_begin/complete with fill_buffer_header, blocking send and receive_wait, device bursts of 1..3 frames into pending buffers of its choice, completions consumed in and out of ring order. Stream `dev`: VirtIONet::new with buffer lengths {1528..4096}, bursts of 1..4 frames in device-chosen order, can_recv/receive/recycle/can_send/send, and a final drain (consume all completions, recycle everything) after which QUEUE_SIZE buffers must be posted. Streams `*-malformed`: additionally too-small buffers, used lengths below the header size, send with a stale completion. Stream `lengths`: every frame length 0..=buffer-header for the 10- and the 12-byte header through VirtIONet receive and (<=1514) send: complete enumeration. Stream `net-wrap`: 66000 frames received and recycled one by one (the ring indices wrap). Stream `net-jumbo`: 70000-byte receive buffers, frames of 65535, 65536, 65537 and 69000 bytes. Non-trivial = at least one frame received with verified contents.".to_string();
     (all, rule, false, BTreeMap::new())
 }
